@@ -266,7 +266,11 @@ class WebSocketFrame(object):
 
     def writeData(self, socket):
 
-        socket.sendall(self.payload)
+        payload = self.payload
+        if self.flags.mask:
+            payload = bytes(b ^ self.masking_key[i%4] for i, b in enumerate(payload))
+
+        socket.sendall(payload)
 
     def __repr__(self):
         opcode = self.flags.opcode.name
